@@ -1078,7 +1078,8 @@ def _classify_candidate(o, ans, skip):
                 if len(osh) == 4 and (osh[1] == 1 or osh[2] == 1):
                     if "strided-conv-fold:unit-output-padding-from-unfolded-width" not in skip:
                         return "strided-conv-fold:unit-output-padding-from-unfolded-width"
-                return "strided-conv-fold:filter-zero-padding-misaligned"
+                if "strided-conv-fold:filter-zero-padding-misaligned" not in skip:
+                    return "strided-conv-fold:filter-zero-padding-misaligned"
         # PAD with channel (or batch) padding and spatial padding at once: convert_pad_to_concat keeps only the channel part
         pads = o.get("src_pads") or {}
         for kind, ins, outs, faf, pad, stride in g:
@@ -1150,15 +1151,16 @@ def classify_failure(o, ans):
     if _OPEN_KEYS is None:
         _OPEN_KEYS = {k["key"] for k in common.load_known_findings() if k["property"] == "C01"}
     skip, first = set(), None
-    while True:
+    for _ in range(64):         # every round adds a new key to `skip`; there are fewer than 64 keys
         k = _classify_candidate(o, ans, skip)
-        if k is None:
+        if k is None or k in skip:
             return first
         if first is None:
             first = k
         if k in _OPEN_KEYS:
             return k
         skip.add(k)
+    return first
 
 
 def replay(ck, path):
